@@ -50,7 +50,9 @@ type Query { beasts: [Beast] any: [Any] beast: Beast one: Any }
 			sdl = first + "# --- second document, loaded after a first request ---\n" + second
 			err := root.ParseString(first)
 			if err == nil {
-				run.Protect(func() { _ = root.ResolveString(`{ beasts { __typename name } any { __typename } beast { name } }`, "", nil) })
+				run.Protect(func() {
+					_ = root.ResolveString(`{ beasts { __typename name } any { __typename } beast { name } }`, "", nil)
+				})
 				err = root.ParseString(second)
 			}
 			if err != nil {
